@@ -154,6 +154,20 @@ func checkModel(c ModelCase) pbt.Verdict {
 			if written > 0 {
 				interesting = true
 			}
+		case "resub":
+			// a follower that is still subscribed subscribes again (to refresh its tail, or plainly):
+			// it stays one follower - every later line once, one unsubscribe ends it
+			if f := fols[op.ID]; f != nil && f.active {
+				if op.N == 1 {
+					n := b.GetLogLength()
+					f.want = append(f.want, window(model[len(model)-n:], f.conn.GetTailLength(), 0)...)
+					b.GetLogsAndSubscribe(f.conn)
+				} else {
+					b.Subscribe(f.conn)
+				}
+				interesting = true
+				v.Labels = append(v.Labels, "resubscribe")
+			}
 		case "unsub":
 			if f := fols[op.ID]; f != nil && f.active {
 				b.UnSubscribe(f.conn)
@@ -220,7 +234,11 @@ func genModel(t *rapid.T) ModelCase {
 	nextID := 0
 	written := 0
 	for i := 0; i < nops; i++ {
-		switch pbt.Pick(t, []string{"w", "w", "w", "r", "r", "sub", "unsub", "close"}) {
+		switch pbt.Pick(t, []string{"w", "w", "w", "r", "r", "sub", "unsub", "close", "resub"}) {
+		case "resub":
+			if nextID > 0 {
+				c.Ops = append(c.Ops, Op{Kind: "resub", ID: pbt.Range(t, 1, nextID), N: pbt.Range(t, 0, 1)})
+			}
 		case "w":
 			n := pbt.Pick(t, []int{1, 1, 2, 3, 7, 60, 130})
 			written += n
